@@ -329,8 +329,8 @@ def describe(info):
         (f"/{info['param']}" if info.get("param") and info["kind"] != "fault" else "") + f" in module {info['bad']} then {'+'.join(info['cont'])}"
 
 
-def report(run, stream, items, outs, fresh, res, limit=3):
-    size = lambda i: (len(items[i][0]["steps"]), len(json.dumps(items[i][0])))
+def report(run, stream, items, outs, fresh, res, limit=3, keep_order=False):
+    size = (lambda i: i) if keep_order else (lambda i: (len(items[i][0]["steps"]), len(json.dumps(items[i][0]))))
     v1 = sorted([i for i, (c, _) in res.items() if c == 1], key=size)
     v2 = sorted([i for i, (c, _) in res.items() if c == 2], key=size)
     seen = set()
@@ -510,7 +510,7 @@ def run(run, tier, seed, replay=None):
                    per_kind=per, injections_not_triggered=sum(1 for it in items if it[2].get("not_triggered")),
                    first_call_did_not_fail=sum(1 for o in outs if not first_failed(o)),
                    rule="non-trivial = the first call fails in the implementation and at least one call follows; distinct by history", **extra)
-        report(run, name, items, outs, fresh, res)
+        report(run, name, items, outs, fresh, res, keep_order=(name == "corpus"))
         total += len(items)
         return outs
 
